@@ -55,7 +55,7 @@ func (c *BindingManager) AddBinding(remoteDevice api.DeviceRemoteInterface, data
 
 	clientFeature := remoteDevice.FeatureByAddress(data.ClientAddress)
 	if clientFeature == nil {
-		return fmt.Errorf("client feature '%s' in remote device '%s' not found", data.ClientAddress, *remoteDevice.Address())
+		return fmt.Errorf("client feature '%s' in remote device with SKI '%s' not found", data.ClientAddress, remoteDevice.Ski())
 	}
 	if err := c.checkRoleAndType(clientFeature, model.RoleTypeClient, *data.ServerFeatureType); err != nil {
 		return err
@@ -112,7 +112,7 @@ func (c *BindingManager) RemoveBinding(data model.BindingManagementDeleteCallTyp
 
 	clientFeature := remoteDevice.FeatureByAddress(data.ClientAddress)
 	if clientFeature == nil {
-		return fmt.Errorf("client feature '%s' in remote device '%s' not found", data.ClientAddress, *remoteDevice.Address())
+		return fmt.Errorf("client feature '%s' in remote device with SKI '%s' not found", data.ClientAddress, remoteDevice.Ski())
 	}
 
 	serverFeature := c.localDevice.FeatureByAddress(data.ServerAddress)
